@@ -126,7 +126,32 @@ class _Prefix1d(torch.nn.Module):
         return self.fc(x)
 
 
-HAND = {'tied1d': _Tied1d, 'tied2d': _Tied2d, 'prefix1d': _Prefix1d}
+class _Squeeze2d1d(torch.nn.Module):
+    """Conv2d with a (1, 5) kernel on a (6, 5) map -> (6, 1) -> squeeze of the LAST axis spelled with its positive index 3 -> Conv1d over the
+    remaining axis -> flatten -> Linear (a 2D front-end feeding a 1D network)"""
+    shape = (3, 6, 5)
+    kw = False
+
+    def __init__(self):
+        super().__init__()
+        nn = torch.nn
+        self.front = nn.Conv2d(3, 4, (1, 5))
+        self.tconv = nn.Conv1d(4, 3, 3, padding='same')
+        self.fc = nn.Linear(3 * 6, 2)
+
+    def forward(self, x):
+        x = torch.relu(self.front(x))
+        x = x.squeeze(dim=3) if self.kw else x.squeeze(3)
+        x = torch.relu(self.tconv(x))
+        return self.fc(torch.flatten(x, 1))
+
+
+class _Squeeze2d1dKw(_Squeeze2d1d):
+    __doc__ = _Squeeze2d1d.__doc__ + '; squeeze(dim=3)'
+    kw = True
+
+
+HAND = {'tied1d': _Tied1d, 'tied2d': _Tied2d, 'prefix1d': _Prefix1d, 'squeeze2d1d': _Squeeze2d1d, 'squeeze2d1d-kw': _Squeeze2d1dKw}
 
 
 def _run_hand(case, seed):
